@@ -26,7 +26,7 @@ STRUCTURAL = set(V.GRAMMAR_WORDS) - {"auto", "hilite", "selected", "true", "fals
 
 
 def units(tier):
-    us = [("LALRCASE", i, 16) for i in range(16)]
+    us = [("INCLUDEGAP",)] + [("LALRCASE", i, 16) for i in range(16)]
     us += [("S6", i) for i in range(16)]
     for t in V.object_types():
         us.append(("DEV", "S1", t, 1))
@@ -139,6 +139,47 @@ def run_corpus(res, shard):
     R.add_sub(res, "corpus files x uniform gap perturbations", res["evals"])
 
 
+def run_includegap(res):
+    """the INCLUDE line is handled by a text pre-pass: the kind of whitespace after the keyword and the keyword's case must not matter either"""
+    import os
+    import shutil
+    import tempfile
+
+    tmp = tempfile.mkdtemp(prefix="mcf_c05_")
+    try:
+        with open(os.path.join(tmp, "part.map"), "w", encoding="utf-8") as f:
+            f.write('  SHAPEPATH "from include"\n  LAYER\n    NAME "inc"\n    TYPE POINT\n  END\n')
+        root = os.path.join(tmp, "root.map")
+        base = None
+        for kw in ("INCLUDE", "include", "Include", "iNcLuDe"):
+            for sep in (" ", "\t", "  ", " \t ", "\t\t", "\f", " \f\t"):
+                for q in ('"', "'", ""):
+                    for lead in ("  ", "\t", "", " \f "):
+                        for trail in ("", " ", "\t", " # c", "\t# c"):
+                            for nl in ("\n", "\r\n"):
+                                text = nl.join(["MAP", '  NAME "r"', "%s%s%s%spart.map%s%s" % (lead, kw, sep, q, q, trail), "  STATUS ON", "END"]) + nl
+                                try:
+                                    got = ("ok", D.typed(impl.loads(text, expand_includes=True, fn=root)))
+                                except Exception as e:
+                                    got = ("exc", impl.exc_name(e))
+                                res["evals"] += 1
+                                if base is None:
+                                    base = got
+                                    if got[0] != "ok":
+                                        R.add_violation(res, "includegap|canonical", "the canonical INCLUDE line is not expanded: %s" % (got,), {"text": text}, None)
+                                        return
+                                if got == base:
+                                    R.add_outcome(res, "same_meaning")
+                                else:
+                                    R.add_outcome(res, "meaning_changed")
+                                    R.add_violation(res, "includegap|kw=%s sep=%r lead=%r trail=%r q=%r" % (kw, sep, lead, trail, q),
+                                                    "an INCLUDE line written with other whitespace / case / quotes loads differently: %s" % (str(got)[:120],), {"text": text}, None)
+        res["states"].add(R.h64(base))
+    finally:
+        shutil.rmtree(tmp, ignore_errors=True)
+    R.add_sub(res, "INCLUDE line: keyword case x separator x quotes x leading/trailing whitespace x line ending", res["evals"])
+
+
 def run_lalrcase(res, shard, nshards):
     from .. import lalr
 
@@ -196,6 +237,8 @@ def run_unit(unit):
         run_dev(res, docs, 2)
     elif k == "S6":
         run_corpus(res, unit[1])
+    elif k == "INCLUDEGAP":
+        run_includegap(res)
     else:
         run_lalrcase(res, unit[1], unit[2])
     return res
